@@ -123,6 +123,7 @@ package raft
 //@ inv [I6] r.configuration != nil && r.followers != nil
 //@ inv [I6b] forall id string :: id in r.followers ==> r.followers[id] != nil
 //@ inv [I7] persTerm == r.currentTerm && persVote == r.votedFor
+//@ inv [I13] r.state == Leader ==> forall fid string :: fid in r.followers ==> r.followers[fid].nextIndex <= Llast + 1
 //@ inv [I11] r.operationManager != nil && r.operationManager.leaderLease != nil
 //@ inv [I12] r.log != nil && r.stateStorage != nil && r.snapshotStorage != nil && r.transport != nil && r.fsm != nil && r.logger != nil
 
@@ -130,6 +131,9 @@ package raft
 //@ guar [G2] r.currentTerm == old(r.currentTerm) && old(r.votedFor) != "" ==> r.votedFor == old(r.votedFor)
 //@ guar [G3] r.commitIndex >= old(r.commitIndex)
 //@ guar [Gclk] now >= old(now)
+// GL (leader append-only): used as rely under assumption A-LEAD-ONCE (a node does not enter the
+// leader state twice in one term), without which it is not transitive.
+//@ guar [GL] old(r.state) == Leader && r.state == Leader && r.currentTerm == old(r.currentTerm) ==> Llast >= old(Llast)
 
 // ===========================================================================================
 // Elections: RequestVote handler (C02, C07, C08, C16)
@@ -160,6 +164,7 @@ package raft
 //@   let P = request.PrevLogIndex
 //@   let n = len(request.Entries)
 //@   let E = request.Entries
+//@   assume [A-ES] request.Term == r.currentTerm ==> r.state != Leader
 //@   assume [A-LM] forall j int :: 0 <= j && j < n && P+1+j <= r.commitIndex && P+1+j <= Llast ==> Lterm[P+1+j] == E[j].Term
 //@   ensures [AE.shutdown] old(r.state) == Shutdown ==> err != nil && Llast == old(Llast) && r.commitIndex == old(r.commitIndex) && r.currentTerm == old(r.currentTerm) && r.votedFor == old(r.votedFor)
 //@   ensures [AE.stale-term] err == nil && request.Term < old(r.currentTerm) ==> !response.Success && response.Term == old(r.currentTerm) && Llast == old(Llast) && r.commitIndex == old(r.commitIndex) && r.currentTerm == old(r.currentTerm) && r.votedFor == old(r.votedFor) && r.state == old(r.state) && r.lastContact == old(r.lastContact)
@@ -436,6 +441,7 @@ package raft
 //@   release s1 [wf] WF(request) && request.LeaderCommit == r.commitIndex && r.lastIncludedIndex <= request.PrevLogIndex
 //@   release s1 [entries-verbatim] forall j int :: 0 <= j && j < len(request.Entries) ==> request.Entries[j].Term == Lterm[request.PrevLogIndex+1+j] && request.Entries[j].EntryType == Ltyp[request.PrevLogIndex+1+j] && request.Entries[j].Data == Ldata[request.PrevLogIndex+1+j]
 //@   release s1 [prev-term] request.PrevLogIndex <= Llast ==> (request.PrevLogIndex == r.lastIncludedIndex ==> request.PrevLogTerm == r.lastIncludedTerm) && (request.PrevLogIndex > r.lastIncludedIndex ==> request.PrevLogTerm == Lterm[request.PrevLogIndex])
+//@   at before-assign follower.nextIndex assume [A-HINT] !response.Success ==> newval <= Llast + 1
 //@   at before-assign follower.matchIndex assert [match-sound] response.Success && err == nil && r.state == Leader && r.currentTerm == request.Term && newval == request.PrevLogIndex + len(request.Entries)
 //@   at before-assign *numResponses assert [verify-voters] err == nil && r.state == Leader && r.currentTerm == request.Term && r.configuration.IsVoter[id]
 //@   at call r.tryApplyReadOnlyOperations assert [confirm-quorum] 2 * *numResponses > cntVoters(r.configuration)
